@@ -682,4 +682,61 @@ func runC15(c *Ctx) {
 	c.R.Rule = "lock table regenerated from the source (Generated/Locks.v) checked by the Coq lockset theorem; stress: every unordered pair of 21 representative documented functions (4 goroutines x 25 calls, distinct cells of one sheet) and random mixes of all of them (2..32 goroutines, shared and distinct cells, two sheets, all payload kinds incl. time values and new shared strings) in workers built with the Go race detector: race reports (keyed by the two innermost excelize frames), panics, hangs, final cells of singly-written cells, style ids vs the styles they denote, save/reopen. non-trivial = all"
 	_ = rand.Int
 	c.c15Stress()
+	c.c15ValidationAtomicity()
+}
+
+// atomicity of the data-validation calls (every access is under the worksheet lock, so the race detector and the
+// lock table are silent about a call that does its work in two critical sections): a delete over a huge reference
+// sequence (long to expand) runs against "delete the last rule, then add one elsewhere"; whichever way the calls are
+// ordered, exactly the added rule remains
+func (c *Ctx) c15ValidationAtomicity() {
+	for trial := 0; trial < 12; trial++ {
+		delay := time.Duration(trial*3) * time.Millisecond
+		desc := map[string]interface{}{"goroutine_D": "DeleteDataValidation(Sheet1, A1:Z40000)", "goroutine_M": "DeleteDataValidation(Sheet1, A1:A2); AddDataValidation(AB1:AB2)", "M_starts_after_ms": trial * 3}
+		c.guard("C15_no_panic", desc, func() {
+			f := excelize.NewFile()
+			defer f.Close()
+			dv := excelize.NewDataValidation(true)
+			dv.SetSqref("A1:A2")
+			dv.SetRange(1, 5, excelize.DataValidationTypeWhole, excelize.DataValidationOperatorBetween)
+			if f.AddDataValidation("Sheet1", dv) != nil {
+				return
+			}
+			var wg sync.WaitGroup
+			wg.Add(2)
+			go func() {
+				defer wg.Done()
+				_ = f.DeleteDataValidation("Sheet1", "A1:Z40000")
+			}()
+			go func() {
+				defer wg.Done()
+				time.Sleep(delay)
+				_ = f.DeleteDataValidation("Sheet1", "A1:A2")
+				nv := excelize.NewDataValidation(true)
+				nv.SetSqref("AB1:AB2")
+				nv.SetRange(1, 9, excelize.DataValidationTypeWhole, excelize.DataValidationOperatorBetween)
+				_ = f.AddDataValidation("Sheet1", nv)
+			}()
+			done := make(chan struct{})
+			go func() { wg.Wait(); close(done) }()
+			select {
+			case <-done:
+			case <-time.After(60 * time.Second):
+				c.Fail("oracle", "C15_linearizable", desc, "the two goroutines did not finish within 60 s", "")
+				return
+			}
+			c.Count("validation-atomicity", true, fmt.Sprint(trial))
+			dvs, _ := f.GetDataValidations("Sheet1")
+			var got []string
+			for _, d := range dvs {
+				got = append(got, d.Sqref)
+			}
+			if len(got) != 1 || got[0] != "AB1:AB2" {
+				c.Fail("oracle", "C15_linearizable", desc, fmt.Sprintf("the worksheet ends with the data validations %q; every sequential order of the three calls leaves exactly [\"AB1:AB2\"]: a completed AddDataValidation was lost", got), "")
+			}
+		})
+		if c.Failed() {
+			return
+		}
+	}
 }
